@@ -229,7 +229,7 @@ def legacy_fallback(ctx, rule='C15.legacy-fallback'):
     except AnchorError as e:
         return [unresolved(rule, str(e))]
     F = ctx.facts
-    fn = hdr
+    fn = ctx.x(hdr)
     nv = [bb for bb, t, c in calls_to_fn(F, fn, vr)]
     ov = [bb for bb, t, c in calls_to_fn(F, fn, ovr)]
     if not ov:
@@ -307,7 +307,7 @@ def pagesize_refusal(ctx, rule='C15.pagesize-refusal'):
         (hdr,) = ctx.need('DBInner::meta')
     except AnchorError as e:
         return [unresolved(rule, str(e))]
-    fn = hdr
+    fn = ctx.x(hdr)
     du = ctx.du(fn)
     nsel = 0
     # comparisons of a header's pagesize with the configured one
